@@ -555,8 +555,8 @@ properties[Profiles.CSS_LEVEL_2] = {
     'margin': r'{margin-width}(\s+{margin-width}){0,3}|inherit',
     'max-height': r'{length}|{percentage}|none|inherit',
     'max-width': r'{length}|{percentage}|none|inherit',
-    'min-height': r'{length}|{percentage}|none|inherit',
-    'min-width': r'{length}|{percentage}|none|inherit',
+    'min-height': r'{length}|{percentage}|inherit',
+    'min-width': r'{length}|{percentage}|inherit',
     'orphans': r'{integer}|inherit',
     'overflow': r'{overflow}',
     'padding-top': r'{padding-width}|inherit',
